@@ -102,9 +102,12 @@ def p_expression_method_call(p):
 def p_expression_lambda(p):
     """ expression : NAME LAMBDA expression
                    | LPAREN arglist_def RPAREN LAMBDA expression
+                   | LPAREN NAME RPAREN LAMBDA expression
     """
     if len(p) == 4:
         p[0] = LambdaOp(args=[NameOp(p[1])], expr=p[3])
+    elif isinstance(p[2], str):
+        p[0] = LambdaOp(args=[NameOp(p[2])], expr=p[5])
     else:
         p[0] = LambdaOp(args=p[2], expr=p[5])
 
@@ -232,8 +235,10 @@ def p_expression_uminus(p):
 
 
 def p_expression_group(p):
-    """ expression : LPAREN expression RPAREN"""
-    p[0] = p[2]
+    """ expression : LPAREN expression RPAREN
+                   | LPAREN NAME RPAREN
+    """
+    p[0] = NameOp(p[2]) if isinstance(p[2], str) else p[2]
 
 
 def p_expression_true(p):
@@ -273,12 +278,8 @@ def p_arglist(p):
 
 def p_arglist_def(p):
     """ arglist_def : arglist COMMA NAME
-                    | NAME
     """
-    if len(p) == 4:
-        p[0] = p[1] + [NameOp(p[3])]
-    else:
-        p[0] = [NameOp(p[1])]
+    p[0] = p[1] + [NameOp(p[3])]
 
 
 def p_error(p):
